@@ -304,7 +304,7 @@ class GraphSim:
     def _render(self, it):
         d = {"id": it["id"], "name": it["name"], "webUrl": "https://sim/" + it["id"]}
         if it["kind"] == "folder":
-            d["folder"] = {"childCount": len(it["children"])}
+            d["folder"] = {} if it.get("nocount") else {"childCount": len(it["children"])}
         elif it["kind"] == "file":
             f = {}
             if it.get("mime") is not None:
